@@ -62,6 +62,16 @@ Proof.
   specialize (H Hin). apply orb_true_iff in H. destruct H as [H|H]; [left; apply Nat.ltb_lt; auto|right; auto].
 Qed.
 
+Definition live_net_b (nt : net) : bool :=
+  wf_net nt && forallb (fun x => 0 <? nworkers x) nt && topo_b nt && fed_b nt && buffered_b nt.
+
+Lemma live_net_b_ok : forall nt, live_net_b nt = true -> live_net nt.
+Proof.
+  intros nt H. unfold live_net_b in H. do 4 (apply andb_true_iff in H; destruct H as [H ?]).
+  split; [split; assumption|]. split; [apply topo_b_ok; assumption|].
+  split; [apply fed_b_ok; assumption|apply buffered_b_ok; assumption].
+Qed.
+
 (* ------------------------------------------------------------------ the schedules considered *)
 (* actions of the framework and of well-behaved nodes: a node returns from Process / calls back (here: with the
    'filtered' outcome, which creates no new work), its Shutdown returns; no new source activity, no clock *)
